@@ -239,6 +239,9 @@ Proof.
   split; [intros _ _ H'; lia | assumption].
 Qed.
 
+Lemma level_float_ok_cap_trivial c eps keys ldk : level_float_ok_cap c eps keys ldk (sentinel c).
+Proof. apply level_float_ok_cap_of. apply level_float_ok_trivial. Qed.
+
 Lemma build_level_shrinks c keys ldk segs segs1 ln1 :
   build_level c (c_epsrec c) keys (zlen keys) ldk segs = Ok (segs1, ln1) ->
   1 <= c_epsrec c -> 1 <= c_par c <= 20 -> keys <> [] -> ssortedb keys = true -> nowrap (c_kt c) keys ->
@@ -277,7 +280,7 @@ Proof.
     rewrite Esk. apply nofuel_bind; [apply nofuel_build_level|]. intros [segs1 ln1] E.
     assert (Hok : lrec_ok c ldk (sentinel c) r) by (cbn [chainR] in Hch; tauto).
     destruct (build_upper_step c ldk (sentinel c) r rl segs1 ln1 Hb ltac:(lia) He0 Hok ltac:(apply orb_false_iff in Ec; lia) ltac:(lia)
-                (level_float_ok_trivial _ _ _ _) E) as (r' & Hok' & Hlink & Es1 & Eln1).
+                (level_float_ok_cap_trivial _ _ _ _) E) as (r' & Hok' & Hlink & Es1 & Eln1).
     destruct (next_keys c ldk (sentinel c) r Hb Hok) as (_ & _ & Hz & _ & Hss & Hko & _).
     apply orb_false_iff in Ec. destruct Ec as [Ec1 Ec2].
     assert (He1 : 1 <= c_epsrec c) by lia. assert (Hl2 : 2 <= lr_ln r) by lia.
@@ -329,8 +332,8 @@ Proof.
   destruct (build_level_desc _ _ _ _ _ _ _ E2 ltac:(lia) Hne Hs Hw Hn64)
     as (css & fed & cnt & g & new & T & M1 & M2 & Es & Hcat & F1 & F2 & He & Htail).
   cbn [app] in Es, Htail.
-  destruct (level_float_ok_trivial c (c_eps c) data (last_z data) css fed cnt new M1 M2) as [Fev _].
-  pose proof (Lv_of_Forall2 c (c_eps c) (EvalOK c (sentinel c)) css g new F1 F2 Fev) as HL.
+  destruct (level_float_ok_cap_trivial c (c_eps c) data (last_z data) css fed cnt new M1 M2) as [Fev _].
+  pose proof (Lv_of_Forall2 c (c_eps c) (EvalOKc (zlen data + c_eps c) c (sentinel c)) css g new F1 F2 Fev) as HL.
   set (r0 := mkL data (c_eps c) css g new T ln).
   assert (Hok0 : lrec_ok c (last_z data) (sentinel c) r0).
   { unfold lrec_ok, r0. cbn [lr_keys lr_eps lr_css lr_g lr_new lr_T lr_ln]. do 6 (split; [assumption|]). exact Htail. }
